@@ -542,6 +542,20 @@ class FactBase:
         nm = c.get("name")
         if not nm:
             return None
+        if nm in ("std::make_unique", "std::make_shared") and c.get("targs"):
+            # constructs targs[0] from the arguments: resolve to that constructor
+            rec = c["targs"][0]
+            ctors = [f for f in self.by_name.get(rec + "::" + rec.split("::")[-1], []) if not f.raw.get("templated")]
+            nargs = len(n.get("args", []))
+            c2 = [f for f in ctors if len(f.params) == nargs]
+            if len(c2) > 1:
+                # prefer the constructor whose parameter kinds match the argument kinds
+                def kinds(f):
+                    return [p["t"].get("k") for p in f.params]
+                ak = [(strip(a).get("t") or {}).get("k") for a in n.get("args", [])]
+                c3 = [f for f in c2 if kinds(f) == ak]
+                c2 = c3 or c2
+            return c2[0] if c2 else None
         cands = [f for f in self.by_name.get(nm, []) if not f.raw.get("templated")]
         pt = c.get("ptypes")
         cands2 = [f for f in cands if f.raw.get("ptypes") == pt and
